@@ -662,6 +662,12 @@ def c06(rep, model):
         why = clear_shape(model, s)
         B.check(not why, 'clearBreakpoints', 'restores POTENTIAL_BREAK at every site of every location enabled at entry, '
                                              'then empties the set', '; '.join(why), _where(model, cb, cb['loc'][1:]))
+    rs = model.facts.fn('Theo::VM::reset')
+    rep.analysed(rs)
+    for s in _paths_of(model, rs):
+        why = clear_shape(model, s)
+        B.check(not why, 'reset', 'restores POTENTIAL_BREAK at every site of every enabled location and empties the set (a reset leaves nothing armed)',
+                '; '.join(why), _where(model, rs, rs['loc'][1:]))
     # ---- d
     D = rep.rule('C06.d', 'the current location is that of the site just passed (ip - advance of the break handlers), '
                           '"none"/-1 otherwise; construction and reset start at ip 0', floor=3)
